@@ -25,6 +25,8 @@ pub const VALUES: &[&str] = &[
     "2020-06-12T17:53:00Z", "2020-13-45T99:99:99Z", "\u{e9}", "1.5-3.5", "1.5-", "-", "1e19-1e19",
     // long / odd decimal spellings
     "12.3450000000", "3.00000000001", "0.0000000001", "1.000000000000000000001", "1.", ".5", "1e-9", "4294967295.999999999", "0x10", "1_000", " 1", "1 ", "+1", "1.5e3", "00000000000000000000001",
+    // ranges that run backwards or are degenerate
+    "5.000-1.000", "3.5-1.5", "2-2", "0-0", "1-0.999",
     // multi-byte text around the separators the typed layer splits at (byte vs. character offsets)
     "\u{e9}=x", "\u{8a55}\u{4fa1}=5", "x=\u{e9}", "\u{e9}:\u{e9}", "1.\u{e9}-2",
     // well-formed, in-range timestamps that name no real instant (calendar, leap second, hour 24)
